@@ -2,6 +2,7 @@ import PetgraphModel.Common
 import PetgraphModel.Model.Csr
 import PetgraphModel.Model.AdjList
 import PetgraphModel.Spec.AppendOnly
+import PetgraphModel.Spec.C05Scope
 import PetgraphModel.Extracted.Csr
 /-
 C05 driver: runs the mirror models (`CsrM`, `AdjM`) and the abstract specifications (`SG`, `ML`) side by
@@ -15,11 +16,25 @@ side with the implementation's answers.
   observes "unchanged"; a wrapped index — the repaired finding D31 — is a SPECFAIL like any other),
   `from_sorted_edges` Ok ⇔ strictly sorted and then equal to the graph built edge by edge; for `List`: parallel edges kept, indices stay valid, insertion order → `SPECFAIL`.
   Not judged (the statement is silent): `Csr` edge ids, the order/multiplicity of
-  `Csr<Undirected>::edge_references` (D7 belongs to C06), readers called with `a ≥ node_count`
-  (`panic` or the empty answer are both accepted; the code answers empty for `a = node_count`).
+  `Csr<Undirected>::edge_references` (D7 belongs to C06).
+  Readers called with a node that does not exist (`a ≥ node_count`) must answer the documented panic
+  ("Panics if the node `a` does not exist"; finding D32 — the empty answer for `a = node_count` — is repaired
+  by /repo commit aadb875 and suppresses nothing: an empty answer there is a SPECFAIL).
+
+* run-time checks of the theorems' hypotheses (`Spec/C05Scope.lean`; `Theorems/C05.lean`, "run-time checks of the
+  hypotheses", proves `check = true → hypothesis`): after every constructor / mutating line `csrScopeB` (`Inv`, `Good`,
+  `Abs`) resp. `listScopeB` (`LAbs`) on the (mirror state, specification state) pair and `capB` (within the capacity
+  of the index type); `representableB` on every `from_sorted` line; `sortedB` / `ascB` on every `bsearch` line.
+  A failing check → `SPECFAIL side condition … does not hold` / `SPECFAIL generator left the proved range`.
+* `obs …` lines (a `Csr` built by `with_nodes(n)` BEYOND the capacity of the index type — outside the property's
+  quantifier, `C05_csr_with_nodes_beyond_capacity`): a recorded observation, compared exactly with the mirror
+  (`MODELDIFF` otherwise), never judged against the specification, no scope checks.
+* `bsearch <sorted slice> <x>` lines: `<[usize]>::binary_search` itself against the mirror's `binaryPos`: judged by the
+  documented contract (`bsContractB`, `C05_bsearch_judge_iff`), and compared exactly when the slice is strictly
+  ascending (where the contract determines the answer, `C05_binary_search_contract_unique`).
 -/
 namespace PetgraphModel.C05
-open PetgraphModel PetgraphModel.AppendSpec
+open PetgraphModel PetgraphModel.AppendSpec PetgraphModel.C05Scope
 
 structure DState where
   isCsr : Bool := true
@@ -126,12 +141,15 @@ def csrRowsM (s : CsrM.State) (f : Nat → Option String) : Option String :=
 /-- the dump line as the mirror model predicts it (same layout as `harness/src/c05.rs::dump_csr`) -/
 def csrDumpM (s : CsrM.State) : String :=
   let n := s.nodeCount
+  -- the harness forms the argument of every per-node reader as `Ix::new(i)`, `i` in `0..n`: the identity within the
+  -- capacity of the index type, `i mod 2^w` beyond it (only in `obs` cases)
+  let ix (i : Nat) : Nat := CsrM.mkIx s.modulus i
   let r : Option String := do
-    let nw ← (List.range n).mapM (CsrM.index s)
-    let nb ← csrRowsM s fun a => (CsrM.neighborsSlice s a).map showNats
-    let ew ← csrRowsM s fun a => (CsrM.edgesSlice s a).map showInts
-    let deg ← (List.range n).mapM (CsrM.outDegree s)
-    let ed ← csrRowsM s fun a => (CsrM.edgesOf s a).map showERefs
+    let nw ← (List.range n).mapM fun i => CsrM.index s (ix i)
+    let nb ← csrRowsM s fun a => (CsrM.neighborsSlice s (ix a)).map showNats
+    let ew ← csrRowsM s fun a => (CsrM.edgesSlice s (ix a)).map showInts
+    let deg ← (List.range n).mapM fun i => CsrM.outDegree s (ix i)
+    let ed ← csrRowsM s fun a => (CsrM.edgesOf s (ix a)).map showERefs
     let er ← CsrM.edgeReferences s
     pure s!"n={n} ec={s.edgeCountQ} nw={showInts nw} nids={showNats (CsrM.nodeIdentifiers s)} nrefs={showNI (CsrM.nodeReferences s)} nb={nb} ew={ew} deg={showNats deg} ed={ed} er={showERefs er}"
   showOpt r
@@ -176,19 +194,25 @@ def csrDumpSpec (g : SG) (impl : String) : Option String :=
          else some s!"edge_references = [{getKV kv "er"}] does not describe the inserted edge set")
   ] id
 
-/-- a reader on node `a`: spec answer `want` for an existing node; for `a ≥ n` the documented panic or
-the empty answer -/
-def readerSpec (g : SG) (a : Nat) (want emptyAns impl : String) : Option String :=
-  if a < g.n then expect want impl else expectAny ["panic", emptyAns] impl
+/-- a reader on node `a`: spec answer `want` for an existing node; for a node that does not exist (`a ≥ n`) the
+documented panic, and nothing else (the former empty answer at `a = n` was finding D32) -/
+def readerSpec (g : SG) (a : Nat) (want impl : String) : Option String :=
+  if a < g.n then expect want impl
+  else if impl == "panic" then none
+  else some s!"node {a} does not exist (node_count = {g.n}): expected the documented panic, implementation answered [{impl}]"
 
 def showRes (r : Except (Nat × Nat) Bool) : String :=
   match r with
   | .ok b => s!"ok {showBool b}"
   | .error (a, b) => s!"err {a} {b}"
 
-def stepCsr (d : DState) (req : List String) (impl : String) : DState × String :=
+/-- one `Csr` line.  `obs = true`: a recorded observation outside the property's quantifier — the verdict is the exact
+comparison with the mirror only. -/
+def stepCsr (obs : Bool) (d : DState) (req : List String) (impl : String) : DState × String :=
   let s := d.csr
   let g := d.sg
+  let verdict (spec : Option String) (model impl : String) : String :=
+    if obs then cmpExact model impl else verdict spec model impl
   let nat (x : String) : Nat := x.toNat?.getD 0
   let int (x : String) : Int := x.toInt?.getD 0
   match req with
@@ -207,7 +231,9 @@ def stepCsr (d : DState) (req : List String) (impl : String) : DState × String 
       let sorted := strictlySorted es
       let n := match CsrM.maxNodeId es with | none => 0 | some mx => mx + 1
       let spec :=
-        if sorted then expect "ok" impl
+        if !representableB s.modulus es then
+          some "generator left the proved range: from_sorted_edges with an endpoint that is not a value of the index type"
+        else if sorted then expect "ok" impl
         else if impl.startsWith "err " then none
         else some s!"from_sorted_edges accepted an input that is not strictly sorted: [{impl}]"
       match m with
@@ -243,16 +269,16 @@ def stepCsr (d : DState) (req : List String) (impl : String) : DState × String 
     | none => ({ d with sg := g' }, verdict (expect want impl) "panic" impl)
   | ["contains", a, b] =>
     let m := showOpt ((CsrM.containsEdge s (nat a) (nat b)).map showBool)
-    (d, verdict (readerSpec g (nat a) (showBool (g.has (nat a) (nat b))) "false" impl) m impl)
+    (d, verdict (readerSpec g (nat a) (showBool (g.has (nat a) (nat b))) impl) m impl)
   | ["out_degree", a] =>
     let m := showOpt ((CsrM.outDegree s (nat a)).map toString)
-    (d, verdict (readerSpec g (nat a) (toString (g.succ (nat a)).length) "0" impl) m impl)
+    (d, verdict (readerSpec g (nat a) (toString (g.succ (nat a)).length) impl) m impl)
   | ["nslice", a] | ["neighbors", a] =>
     let m := showOpt ((CsrM.neighborsSlice s (nat a)).map showNats)
-    (d, verdict (readerSpec g (nat a) (showNats ((g.succ (nat a)).map (·.1))) "-" impl) m impl)
+    (d, verdict (readerSpec g (nat a) (showNats ((g.succ (nat a)).map (·.1))) impl) m impl)
   | ["eslice", a] =>
     let m := showOpt ((CsrM.edgesSlice s (nat a)).map showInts)
-    (d, verdict (readerSpec g (nat a) (showInts ((g.succ (nat a)).map (·.2))) "-" impl) m impl)
+    (d, verdict (readerSpec g (nat a) (showInts ((g.succ (nat a)).map (·.2))) impl) m impl)
   | ["edges", a] =>
     let a := nat a
     let m := showOpt ((CsrM.edgesOf s a).map showERefs)
@@ -264,7 +290,7 @@ def stepCsr (d : DState) (req : List String) (impl : String) : DState × String 
         | some refs =>
           if refs.all (fun (_, s, _, _) => s == a) && sameMultiset (refs.map fun (_, _, t, w) => (t, w)) (g.succ a)
           then none else some s!"edges({a}) = [{impl}] but the inserted edges of {a} are [{showNI (g.succ a)}]"
-      else expectAny ["panic", "-"] impl
+      else readerSpec g a "" impl
     (d, verdict spec m impl)
   | ["index", a] =>
     let m := showOpt ((CsrM.index s (nat a)).map toString)
@@ -276,7 +302,7 @@ def stepCsr (d : DState) (req : List String) (impl : String) : DState × String 
     let m := showOpt (((List.range (s.nodeCount + 1)).mapM fun b => (CsrM.containsEdge s a b).map fun r => (b, r)).map
       fun l => showNats ((l.filter (·.2)).map (·.1)))
     let want := showNats ((List.range (g.n + 1)).filter fun b => g.has a b)
-    (d, verdict (readerSpec g a want "-" impl) m impl)
+    (d, verdict (readerSpec g a want impl) m impl)
   | ["dump"] => (d, verdict (csrDumpSpec g impl) (csrDumpM s) impl)
   | _ => (d, s!"SPECFAIL bad request {req}")
 
@@ -427,6 +453,61 @@ def stepList (d : DState) (req : List String) (impl : String) : DState × String
     (d, verdict (adjDumpSpec g hs impl) (adjDumpM s hs) impl)
   | _ => (d, s!"SPECFAIL bad request {req}")
 
+/-! ### `<[usize]>::binary_search` against the mirror's search -/
+
+def showPos : CsrM.Pos → String
+  | .found i => s!"ok {i}"
+  | .absent i => s!"err {i}"
+
+def parsePos (s : String) : Option CsrM.Pos :=
+  match splitWords s with
+  | ["ok", i] => i.toNat?.map .found
+  | ["err", i] => i.toNat?.map .absent
+  | _ => none
+
+/-- `bsearch <xs> <x> => ok i | err i` -/
+def stepBsearch (xs : List Nat) (x : Nat) (impl : String) : String :=
+  if !sortedB xs then "SPECFAIL generator left the proved range: bsearch on a slice that is not sorted" else
+  let m := CsrM.binaryPos xs x (xs.length + 1) 0 xs.length
+  match parsePos impl with
+  | none => s!"SPECFAIL binary_search: unreadable answer [{impl}]"
+  | some p =>
+    if !bsContractB xs x p then
+      s!"SPECFAIL binary_search answered [{impl}] for {x} in [{showNats xs}], which violates its documented contract"
+    else if ascB xs then
+      -- strictly ascending: the contract determines the answer, and both branches of the mirror's find_edge_pos search
+      -- must give it
+      if CsrM.searchPos 0 xs x == m && CsrM.searchPos (xs.length + 1) xs x == m then cmpExact (showPos m) impl
+      else s!"SPECFAIL side condition search_branches_agree does not hold on [{showNats xs}] {x}"
+    else "ok"
+
+/-! ### dispatch and the run-time checks of the hypotheses -/
+
+def isMutating (req : List String) : Bool :=
+  match req with
+  | ["new"] | ["with_nodes", _] | ["from_sorted", _] | ["clone"] | ["add_node", _] | ["add_edge", _, _, _]
+  | ["try_add_edge", _, _, _] | ["clear_edges"] | ["set_weight", _, _] => true
+  | ["with_capacity", _] | ["add_node"] | ["add_node_cap", _] | ["build_add_node"] | ["add_node_from", _]
+  | ["build_add_edge", _, _, _] | ["update_edge", _, _, _] | ["set_eweight", _, _] | ["clear"] => true
+  | _ => false
+
+/-- after a constructor / mutating line: the (mirror state, specification state) pair must be inside the scope of the
+theorems.  A genuine `SPECFAIL` of the line itself is reported first. -/
+def scopeVerdict (d : DState) (req : List String) (v : String) : String :=
+  if v.startsWith "SPECFAIL" || !isMutating req then v
+  else if d.isCsr then
+    if !csrScopeB d.csr d.sg then
+      "SPECFAIL side condition csr_scope does not hold: the mirror state is not the layout of the specification graph"
+    else if !capB d.csr.modulus d.sg.n then
+      s!"SPECFAIL generator left the proved range: {d.sg.n} nodes exceed the capacity {d.csr.modulus} of the index type"
+    else v
+  else
+    if !listScopeB d.adj d.ml then
+      "SPECFAIL side condition list_scope does not hold: the mirror rows are not the per-source subsequences of the specification log"
+    else if !capB d.adj.modulus d.ml.n then
+      s!"SPECFAIL side condition list_capacity does not hold: {d.ml.n} nodes exceed the capacity {d.adj.modulus} of the index type"
+    else v
+
 def step (d : DState) (req : List String) (impl : String) : DState × String :=
   match req with
   | ["case", k, "csr", ty, w, dbg] =>
@@ -435,6 +516,15 @@ def step (d : DState) (req : List String) (impl : String) : DState × String :=
        sg := { directed := directed } }, s!"case {k}")
   | ["case", k, "list", w] =>
     ({ isCsr := false, adj := AdjM.new (modulusOf w), ml := {} }, s!"case {k}")
-  | _ => if d.isCsr then stepCsr d req impl else stepList d req impl
+  | ["case", k, "bsearch"] => ({}, s!"case {k}")
+  | ["bsearch", xs, x] =>
+    match x.toNat? with
+    | some x => (d, stepBsearch (parseNats xs) x impl)
+    | none => (d, s!"SPECFAIL bad request {req}")
+  | "obs" :: rest =>
+    if d.isCsr then stepCsr true d rest impl else (d, s!"SPECFAIL bad request {req}")
+  | _ =>
+    let (d', v) := if d.isCsr then stepCsr false d req impl else stepList d req impl
+    (d', scopeVerdict d' req v)
 
 end PetgraphModel.C05
